@@ -1,10 +1,114 @@
-(* C16 Unsync channels are FIFO, lossless and never strand a sender (stub: refutations only) *)
-From Coq Require Import List.
-From HV Require Import Chan.ModelMpsc Chan.PMpscRefute.
+(* C16 Unsync channels are FIFO, lossless and never strand a sender.
+   Only the property theorems: each is closed by `exact` of a lemma proved in Chan/P*.v and
+   followed by Print Assumptions.  Model: Chan/ModelMpsc.v (dfir_rs/src/util/unsync/mpsc.rs). *)
+From Coq Require Import List Arith Bool NArith.
+From HV Require Import Chan.ModelMpsc Chan.ModelMpscChk Chan.PMpscSafe Chan.PMpscLive Chan.PMpscRefute.
 Import ListNotations.
 
+(* Safety, every executor policy (also spurious polls and cancelled senders), every number of
+   tasks, every program, every capacity (bounded or not), every label sequence: the received
+   sequence is a prefix of the successful-send sequence and what is missing is exactly the
+   buffer (FIFO, exactly once, nothing lost). *)
+Theorem C16_fifo_exactly_once : forall p c progs tr s,
+  reachable p (init c progs) tr s ->
+  sent s = recvd s ++ buf s /\ recvd s = firstn (length (recvd s)) (sent s).
+Proof. exact fifo_exactly_once. Qed.
+Print Assumptions C16_fifo_exactly_once.
+
+(* ... where `sent`/`recvd` are exactly what the polls returned: a step appends the items of
+   the polled stage whose send returned Ok, resp. the item returned by recv. *)
+Theorem C16_history_faithful : forall p s l s' o, step p s l = Some (s', o) ->
+  sent s' = sent s ++ obs_sent s l o /\ recvd s' = recvd s ++ obs_recv o.
+Proof. exact step_ghost. Qed.
+Print Assumptions C16_history_faithful.
+
+(* Closure consistency: a send errs iff the receiver was closed or dropped earlier in the
+   trace; recv yields None iff everything sent has been received and no sender can send any
+   more (receiver closed, or every sender dropped). *)
+Theorem C16_closure_consistent : forall p c progs tr s l s' o,
+  reachable p (init c progs) tr s -> step p s l = Some (s', o) ->
+  (forall rs fin ws r, o = OPoll rs fin ws -> In r rs ->
+     (r = SClosed <-> existsb is_close tr = true)) /\
+  (forall r ws, o = ORecv r ws ->
+     (r = RNone <-> sent s = recvd s /\
+                    (existsb is_close tr = true \/ forall t, t < ntasks s -> alive (tasks s t) = false))).
+Proof. exact closure_consistent. Qed.
+Print Assumptions C16_closure_consistent.
+
+(* Liveness as absence of the bad quiescent state.  FULL statement of the property:
+     forall policy c progs tr s, cap_ok c -> reachable policy (init c progs) tr s -> ~ Stranded s.
+   It is FALSE of the code (three refutations below, each replayed on the real crate).
+   Proved for the class that excludes them by name: tasks polled only when woken and senders
+   dropped only when finished (policy `strict`), one outstanding send per task
+   (`single_progs`, an executable predicate). Any number of tasks, any capacity. *)
+Theorem C16_no_strand : forall c progs tr s,
+  cap_ok c = true -> single_progs progs = true ->
+  reachable strict (init c progs) tr s -> ~ Stranded s.
+Proof. exact no_strand. Qed.
+Print Assumptions C16_no_strand.
+
+(* stronger progress form (also when the buffer is full): a waiting sender always coexists
+   with a runnable task, so a fair executor always has something to poll *)
+Theorem C16_waiting_implies_runnable : forall c progs tr s t,
+  cap_ok c = true -> single_progs progs = true ->
+  reachable strict (init c progs) tr s ->
+  t < ntasks s -> waiting (tasks s t) = true ->
+  rx_runnable s = true \/ exists u, u < ntasks s /\ runnable (tasks s u) = true.
+Proof. exact waiting_implies_runnable. Qed.
+Print Assumptions C16_waiting_implies_runnable.
+
+(* finding 1: two outstanding sends in one task (strict executor) *)
 Theorem C16_no_strand_refuted :
   exists s, reachable strict (init (Some 1) w1_progs) w1_trace s /\ Stranded s /\
             cap_ok (Some 1) = true.
 Proof. exact no_strand_refuted. Qed.
 Print Assumptions C16_no_strand_refuted.
+
+(* finding 2: one outstanding send per task, but a pending send is polled again without a wake *)
+Theorem C16_no_strand_spurious_refuted :
+  exists s, single_progs w2_progs = true /\
+            reachable (mkPolicy true false) (init (Some 1) w2_progs) w2_trace s /\ Stranded s.
+Proof. exact no_strand_spurious_refuted. Qed.
+Print Assumptions C16_no_strand_spurious_refuted.
+
+(* finding 3: one outstanding send per task, polled only when woken, a woken sender is dropped *)
+Theorem C16_no_strand_cancel_refuted :
+  exists s, single_progs w3_progs = true /\
+            reachable (mkPolicy false true) (init (Some 1) w3_progs) w3_trace s /\ Stranded s.
+Proof. exact no_strand_cancel_refuted. Qed.
+Print Assumptions C16_no_strand_cancel_refuted.
+
+(* ------------------------------------------------------------------ non-vacuity *)
+
+(* the hypotheses of C16_no_strand hold of a run in which two senders really wait for capacity
+   and are woken again: capacity 1, three single-send tasks *)
+Definition ex_progs : list (list (list item)) := [[[9%N]; [8%N]]; [[3%N]]; [[1%N]]].
+Definition ex_trace : list label := [Poll 0; Poll 0; Poll 1; Poll 2; PollRx].
+
+Example C16_no_strand_nonvacuous :
+  cap_ok (Some 1) = true /\ single_progs ex_progs = true /\
+  exists s, reachable strict (init (Some 1) ex_progs) ex_trace s /\
+            sw s = [1; 0] /\ waiting (tasks s 1) = true /\ runnable (tasks s 2) = true /\
+            recvd s = [9%N].
+Proof.
+  split; [reflexivity|]. split; [reflexivity|].
+  destruct (run_enabled strict (init (Some 1) ex_progs) ex_trace) as [s|] eqn:E;
+    [|vm_compute in E; discriminate].
+  exists s. split; [apply run_enabled_reachable; exact E|].
+  assert (H : option_map (fun s => (sw s, waiting (tasks s 1), runnable (tasks s 2), recvd s))
+                (run_enabled strict (init (Some 1) ex_progs) ex_trace)
+              = Some ([1; 0], true, true, [9%N])) by (vm_compute; reflexivity).
+  rewrite E in H. cbn [option_map] in H. inversion H. repeat split; reflexivity.
+Qed.
+
+(* closure consistency is not vacuous: a run with a close, a failing send and a final None *)
+Example C16_closure_nonvacuous :
+  fst (run strict (init (Some 1) [[[1%N]; [2%N]]]) [Poll 0; CloseRx; Poll 0; PollRx; PollRx; DropSender 0])
+  = [OPoll [SSent] false []; OAct []; OPoll [SClosed] true []; ORecv (RSome 1%N) []; ORecv RNone [];
+     OAct []].
+Proof. vm_compute. reflexivity. Qed.
+
+(* the executable form used by the correspondence check flags the witness of finding 1 *)
+Example C16_holds_b_flags_witness :
+  C16_fail_mask (Some 1) w1_progs w1_trace (fst (run strict (init (Some 1) w1_progs) w1_trace)) = 16%N.
+Proof. vm_compute. reflexivity. Qed.
